@@ -3,6 +3,11 @@
 import json, subprocess
 
 BUILT = {
+ "C14": dict(level="exploration",
+   technique="round-trip testing of generated global environments (SaveGlobals -> AutoLoad line by line and load() whole file -> compare values, types, function text and behaviour; save fixpoint) plus stateful save/load/mutate cycles against a model",
+   text="Generated environments hold integers (both extremes), floats (integral-valued, -0, subnormal, huge, infinities, NaN), strings over all bytes, nested arrays and maps with keys of every type and sizes around the thresholds, and named functions / func literals / lambdas whose bodies come from the full statement grammar with comments; they are saved with State.SaveGlobals and loaded into fresh states both ways. Checked: one line per binding with the right prefix, sorted; no load error; identical type and structure of every data value; identical printed form and identical output / result / error of every function on three generated argument tuples; saving the reloaded state gives identical bytes; with a length limit longer values are absent and all others present (values placed right at the limit). A stateful generator adds save / load / mutate cycles through the language's own save() and load() against a model.",
+   note="Function bodies in the class of known finding K-C02-1 are excluded by construction (the compact printer changes such trees). Functions are compared on 3 argument tuples, not all.",
+   ref="DESIGN.md section 3, C14"),
  "C18": dict(level="fault_enumeration",
    technique="fault injection with exhaustive enumeration of crash points (SIGKILL at hook points in a child process) and byte-granular write failures (RLIMIT_FSIZE) over rapid-generated pairs of previous/new state; oracle = on-disk file is exactly the previous or the new file and the next session loads one of the two states",
    text="For rapid-generated pairs of a previous state A (or none) and a mutation giving state B (up to 60 bindings, values from a few bytes to tens of KB, growing / shrinking / same size / one huge value), every crash point of the auto-save of B is enumerated: before and after creating the temporary file, after each binding written by SaveGlobals, after the last write and after the rename; the child process kills itself with SIGKILL at the chosen hook point, and the parent reads ./.gr from the disk: it must be byte-identical to A's file (absent if A was absent) or B's file, A before the rename and B after it, and a fresh process must auto-load it without error into globals equal to A's or B's. Write failures are injected after 0, 1, size-1 bytes and around every line boundary; the previous file must survive.",
